@@ -697,6 +697,8 @@ func totalAdversary(f Fields) (dec string, b []byte) {
 		st = append(st, 0, 1, 0, 0, 0, 0) // class definition 1: format 1, no glyphs
 		st = append(st, 0, 1, 0, 0, 0, 0) // class definition 2
 		return "gpos", totalGtabWrap(2, st)
+	case "cff-charset-predef": // predefined charset id with n glyphs
+		return "cff", totalMiniCFFCharset(num("id", 0), num("n", 1))
 	case "chain3-alias":
 		return "gsub", totalChain3Aliased(num("k", 2))
 	case "t2-nested-gsubrs": // §9 #26
@@ -950,6 +952,8 @@ func init() {
 				loca = append(totalBe16b(0), totalBe16b((g+j)/2)...)
 			}
 			return totalD("glyf", Fields{"bytes": hx(glyf), "loca": hx(loca), "fmt": f["fmt"]})
+		case "ext-chain": // extension records naming the extension type again: Read refuses, or Apply must not panic
+			return totalLookuplistApply(f["table"], totalExtChain(f["table"], f.Int("levels")), []int{1, 2, 3})
 		case "hmtx-extreme": // numberOfHMetrics vs table length
 			return totalD("hmtx", Fields{"bytes": hx(make([]byte, f.Int("len"))), "hhea": hx(totalHheaFor(f.Int("hmetrics")))})
 		case "cff-charset", "cff-fdselect": // sub-structure readers through the C13 hooks; n = glyph count
@@ -2444,6 +2448,58 @@ func totalT2OpCase(op string, n int, params []int, inSub bool) []byte {
 	return totalMiniCFF(glyph, [][]byte{code})
 }
 
+// totalExtChain: a GSUB/GPOS table with one extension lookup whose extension record points — through
+// `levels` further extension records that name the extension type again — at a real subtable (GSUB 1.1 /
+// GPOS 1.1 covering glyphs 1..3).  levels = 0 is a well-formed extension lookup.
+func totalExtChain(table string, levels int) []byte {
+	ext, real := 7, []byte{0, 1, 0, 6, 0, 1, 0, 1, 0, 3, 0, 1, 0, 2, 0, 3}
+	if table == "gpos" {
+		ext, real = 9, []byte{0, 1, 0, 6, 0, 0, 0, 1, 0, 3, 0, 1, 0, 2, 0, 3}
+	}
+	b := []byte{0, 1, 0, 0, 0, 10, 0, 12, 0, 14, 0, 0, 0, 0, 0, 1, 0, 4}
+	b = append(b, totalBe16b(ext)...)
+	b = append(b, 0, 0, 0, 1, 0, 8)
+	for i := 0; i < levels; i++ {
+		b = append(b, 0, 1)
+		b = append(b, totalBe16b(ext)...)
+		b = append(b, 0, 0, 0, 8)
+	}
+	b = append(b, 0, 1, 0, 1, 0, 0, 0, 8) // extension record naming the real lookup type 1
+	return append(b, real...)
+}
+
+// totalMiniCFFCharset: a minimal name-keyed CFF with `n` glyphs (each `endchar`) whose Top DICT names
+// the predefined charset `id` (0 ISOAdobe: 229 names, 1 Expert: 166, 2 ExpertSubset: 87).
+func totalMiniCFFCharset(id, n int) []byte {
+	name := totalCffWriteIndex([][]byte{[]byte("A")})
+	strs := totalCffWriteIndex(nil)
+	gs := totalCffWriteIndex(nil)
+	glyphs := make([][]byte, n)
+	for i := range glyphs {
+		glyphs[i] = []byte{14}
+	}
+	chars := totalCffWriteIndex(glyphs)
+	topLen := 5 + 1 + 5 + 1 + 5 + 5 + 1
+	top := totalCffWriteIndex([][]byte{make([]byte, topLen)})
+	csOff := 4 + len(name) + len(top) + len(strs) + len(gs)
+	privOff := csOff + len(chars)
+	var d []byte
+	d = append(d, totalDictInt5(id)...)
+	d = append(d, 15)
+	d = append(d, totalDictInt5(csOff)...)
+	d = append(d, 17)
+	d = append(d, totalDictInt5(0)...)
+	d = append(d, totalDictInt5(privOff)...)
+	d = append(d, 18)
+	b := []byte{1, 0, 4, 4}
+	b = append(b, name...)
+	b = append(b, totalCffWriteIndex([][]byte{d})...)
+	b = append(b, strs...)
+	b = append(b, gs...)
+	b = append(b, chars...)
+	return b
+}
+
 // ---------------------------------------------------------------- mutations
 
 func totalMutate(r *Rng, b []byte) ([]byte, string) {
@@ -3231,6 +3287,19 @@ func areaTotal(c *Ctx) {
 	adv("kind=gpos21-alias k=20 acc=0")
 	adv("kind=chain3-alias k=1 acc=0")
 	adv("kind=gpos51-alias n=1 acc=0")
+	// extension lookups whose record names the extension type again (one and two levels), GSUB and GPOS
+	for _, tb := range []string{"gsub", "gpos"} {
+		for lv := 0; lv <= 2; lv++ {
+			adv(fmt.Sprintf("kind=ext-chain table=%s levels=%d", tb, lv))
+		}
+	}
+	// predefined CFF charsets with glyph counts around the table lengths (ISOAdobe 229, Expert 166, ExpertSubset 87)
+	for id, l := range []int{229, 166, 87} {
+		for _, n := range []int{1, 2, l - 1, l, l + 1, l + 2, 88, 166, 167, 229, 230, 500} {
+			adv(fmt.Sprintf("kind=cff-charset-predef id=%d n=%d", id, n))
+		}
+	}
+	adv("kind=cff-charset-predef id=3 n=2")
 	// GPOS 2.2 class-count products at and over the 65536-record cap (16-bit wrap of the product)
 	for _, cc := range [][2]int{{1, 1}, {2, 3}, {255, 257}, {256, 256}, {512, 128}, {128, 512}, {300, 300}, {65535, 65535}, {65535, 1}, {1, 65535}, {65536 / 4, 4}, {0, 0}, {0, 65535}, {257, 255}, {4096, 16}, {16, 4097}} {
 		adv(fmt.Sprintf("kind=gpos22-classes c1=%d c2=%d", cc[0], cc[1]))
